@@ -134,6 +134,9 @@ WORDS = ["alpha", "beta", "gamma", "delta", "epsilon", "Zeta", "eta", "Theta", "
          "data42", "re-use", "it's", "a/b", "x=1", "50%", "(see", "this)", "done.", "yes,", "why?", "wow!"]
 SAFE_START = ["alpha", "beta", "gamma", "Theta", "node", "graph", "query", "The", "shard", "omega", "naïve", "Ωmega"]
 TITLE_WORDS = ["Intro", "Setup", "Usage", "Details", "Advanced", "Notes", "Reference", "Overview", "Part", "Guide", "naïve"]
+FOOT_NAMES = ["note", "fn-two", "caveat1"]
+SUB_NAMES = ["prod", "the-version", "Long Name"]
+TARGET_NAMES = ["docs", "home page", "api-ref"]
 SHORT_TITLES = ["FAQ", "API", "Go", "Sub", "C", "Ab", "naï"]
 STYLE_CHARS = "=-~^\"'#*+:._`"
 LITERALS = ["x", "a*b", "f(x)", "a_b", "|pipe|", "<tag>", "a\\b", "two words", "k: v", "__init__", "*star*", "50%",
@@ -193,8 +196,14 @@ class Gen:
             return {"k": "strong", "s": " ".join(self.words(1, 2, SAFE_START))}
         if r < 0.6:
             return {"k": "literal", "s": rng.choice(LITERALS)}
-        if r < 0.92:
+        if r < 0.80:
             return self.role()
+        if r < 0.84:
+            return {"k": "footref", "name": rng.choice(FOOT_NAMES)}
+        if r < 0.88:
+            return {"k": "subref", "name": rng.choice(SUB_NAMES)}
+        if r < 0.92:
+            return {"k": "namedref", "name": rng.choice(TARGET_NAMES)}
         return {"k": "extref", "label": " ".join(self.words(1, 2, SAFE_START)) + str(rng.randint(0, 99999)),
                 "uri": rng.choice(URIS)}
 
@@ -346,7 +355,7 @@ class Gen:
         return {"k": "deflist", "items": out}
 
     KINDS = ["para", "para", "para", "bullet", "enumerated", "deflist", "lineblock", "comment", "label", "directive",
-             "directive", "code"]
+             "directive", "code", "footnote", "substdef", "blocksub", "namedtarget"]
 
     def body(self, depth, n):
         rng = self.rng
@@ -355,7 +364,7 @@ class Gen:
         for _ in range(n):
             kinds = [k for k in self.KINDS if k != last or k in ("para", "label", "comment", "directive", "code")]
             if depth >= 3:
-                kinds = [k for k in kinds if k in ("para", "code", "comment", "lineblock", "label")]
+                kinds = [k for k in kinds if k in ("para", "code", "comment", "lineblock", "label", "substdef", "namedtarget")]
             k = rng.choice(kinds)
             if k == "para":
                 out.append(self.para())
@@ -373,9 +382,31 @@ class Gen:
                 out.append(self.label())
             elif k == "directive":
                 out.append(self.directive(depth))
+            elif k == "footnote":
+                self.nfoot = getattr(self, "nfoot", 0) + 1
+                my = self.nfoot
+                kids = [self.para(allow_nl=rng.random() < 0.5)]
+                if rng.random() < 0.4:
+                    kids += self.body(depth + 1, 1)
+                out.append({"k": "footnote", "name": rng.choice(FOOT_NAMES) if my == 1 else f"fn{my}", "kids": kids})
+            elif k == "substdef":
+                self.nsub = getattr(self, "nsub", 0) + 1
+                xs = self.inlines(allow_nl=False, rich=False, lo=0, hi=3)
+                if rng.random() < 0.5:
+                    xs += [{"k": "sp"}, rng.choice([{"k": "emph", "s": "new"}, {"k": "strong", "s": "Bold"}, {"k": "literal", "s": "x_y"}])]
+                out.append({"k": "substdef", "name": SUB_NAMES[self.nsub - 1] if self.nsub <= len(SUB_NAMES) else f"sub{self.nsub}", "xs": xs})
+            elif k == "blocksub":
+                out.append({"k": "blocksub", "name": rng.choice(SUB_NAMES)})
+            elif k == "namedtarget":
+                self.ntgt = getattr(self, "ntgt", 0) + 1
+                out.append({"k": "namedtarget", "name": TARGET_NAMES[self.ntgt - 1] if self.ntgt <= len(TARGET_NAMES) else f"tgt{self.ntgt}",
+                            "uri": rng.choice(URIS)})
             else:
                 out.append(self.code())
             last = k
+        if depth == 0 and len(out) >= 2 and rng.random() < 0.25:
+            # a transition is only legal between two body elements of a section (never first or last, never doubled)
+            out.insert(rng.randint(1, len(out) - 1), {"k": "transition", "style": rng.choice("-=~*_"), "len": rng.choice([4, 5, 12, 30])})
         return out
 
     def section(self, styles, depth, maxdepth):
@@ -448,7 +479,8 @@ def attach_render(cases):
 # normalising the real AST
 # --------------------------------------------------------------------------------------
 
-LINE_KINDS = {"paragraph", "directive", "code", "target", "heading"}
+LINE_KINDS = {"paragraph", "directive", "code", "target", "heading", "transition", "footnote", "substitution_definition",
+              "substitution_reference", "named_reference"}
 
 
 def norm(node):
@@ -462,7 +494,13 @@ def norm(node):
     elif t in ("role", "ref_role"):
         attrs = {"domain": node.get("domain"), "name": node.get("name"), "target": node.get("target")}
     elif t == "reference":
-        attrs = {"refuri": node.get("refuri")}
+        attrs = {"refuri": node.get("refuri"), "refname": node.get("refname")}
+    elif t == "footnote":
+        attrs = {"name": node.get("name")}
+    elif t == "footnote_reference":
+        attrs = {"refname": node.get("refname")}
+    elif t in ("substitution_definition", "substitution_reference"):
+        attrs = {"name": node.get("name")}
     elif t == "named_reference":
         attrs = {"refname": node.get("refname"), "refuri": node.get("refuri")}
     elif t == "list":
